@@ -18,6 +18,7 @@ Proof.
     repeat match goal with
     | |- context [live_at vs ?i] => destruct (live_at vs i) as [?d|] eqn:?; cbn [option_map]
     | |- context [dead_at vs ?i] => destruct (dead_at vs i) eqn:?
+    | |- context [throws ?v] => destruct (throws v) eqn:?
     | |- context [eng ?d] => destruct d as [[|] ?elt]; cbn [eng ov abs_opt]
     | |- context [match ?s with Some _ => _ | None => _ end] => is_var s; destruct s
     end; cbn [fst snd abs_cell abs_opt eng ov val fresh app]; vars_simp; try reflexivity;
@@ -67,6 +68,7 @@ Proof.
     repeat match goal with
     | |- context [live_at vs ?i] => destruct (live_at vs i) as [?d|] eqn:?
     | |- context [dead_at vs ?i] => let E := fresh "Hd" in destruct (dead_at vs i) eqn:E; [pose proof (dead_live _ _ E)|]
+    | |- context [throws ?v] => destruct (throws v) eqn:?
     | |- context [eng ?d] => is_var d; destruct d as [[|] ?elt]; cbn [eng ov]
     | |- context [match ?s with Some _ => _ | None => _ end] => is_var s; destruct s
     end;
